@@ -167,8 +167,8 @@ def mutate(rng, db, k):
 
 
 def gen_cases(rng, tier):
-    n = 1500 if tier == 'quick' else 30000
-    out = []
+    n = 1200 if tier == 'quick' else 30000
+    out = sweep_cases()
     for i in range(n):
         db = gen_db(rng)
         keys = [k for k, _ in db.recs]
@@ -185,4 +185,38 @@ def gen_cases(rng, tier):
         doms = [rng.choice(DOMS + [a for p in COLL for a in p] + [b'n%d' % rng.randrange(40)]) for _ in range(rng.randrange(0, 12))]
         recs = b''.join(bytes([len(key(d))]) + key(d) + bytes([len(v)]) + v for d in doms for v in [value(rng, d)[:200]])
         out.append('a1 %s' % hx(recs))
+    return out
+
+
+def sweep_cases():
+    """deterministic: one small database (a colliding pair, a duplicate key, a plain record); for two of its keys every
+    32 bit field the lookup touches is set to every boundary value, and the file is cut at every structure boundary +-1"""
+    out = []
+    for tf in (False, True):
+        recs = [(key(b'vn13'), field(b'vn13', b'89', b'89', b'outer/dom//')), (key(b'x.y'), field(b'x.y', b'1', b'2', b'/p')),
+                (key(b'vhw3'), field(b'vhw3', b'89', b'89', b'outer/missing')), (key(b'x.y'), field(b'x.y', b'1', b'2', b'/second'))]
+        db = Db(recs, tables_first=tf)
+        vals = sorted({0, 1, 7, 8, 9, 2047, 2048, 2049, db.size - 16, db.size - 9, db.size - 8, db.size - 7, db.size - 1, db.size, db.size + 1,
+                       db.size + 8, 0x7fffffff, 0x80000000, 0xfffffff0, 0xfffffff8, 0xffffffff, (db.size - 2048) // 8, (db.size - 2048) // 8 + 1}
+                      | set(db.rpos) | {p + 1 for p in db.rpos} | {p - 1 for p in db.rpos})
+        for dom in (b'vhw3', b'x.y'):
+            k = key(dom)
+            h = chash(k)
+            t = h & 255
+            offs = [8 * t, 8 * t + 4]
+            offs += [db.tpos[t] + 8 * j + d for j in range(db.nsl[t]) for d in (0, 4)]
+            offs += [p + d for p, (kk, _) in zip(db.rpos, db.recs) if chash(kk) == h for d in (0, 4)]
+            for o in offs:
+                for v in vals:
+                    b = bytearray(db.file)
+                    struct.pack_into('<I', b, o, v & M32)
+                    out.append('%s %s %s' % ('d2' if (o + v) % 3 == 0 else 'd1', hx(bytes(b)), hx(dom if (o + v) % 3 == 0 else k)))
+            for cut in db.boundaries():
+                if cut < 2048 and cut not in (0, 1, 2040, 2044, 2047, 8 * t, 8 * t + 4, 8 * t + 8):
+                    continue
+                for c in (cut - 1, cut, cut + 1):
+                    if 0 <= c <= db.size:
+                        out.append('d1 %s %s' % (hx(db.file[:c]), hx(k)))
+                        if c >= db.size - 40:
+                            out.append('d2 %s %s' % (hx(db.file[:c]), hx(dom)))
     return out
